@@ -177,6 +177,21 @@ def value_kind(value):
     return ("number", value)
 
 
+def same_value(got, want):
+    """equal, and for a zero also of the same sign: -0.0 and 0.0 are different reports"""
+    import math
+    if got != want:
+        return False
+    if isinstance(want, (int, float)) and not isinstance(want, bool) and want == 0:
+        return math.copysign(1, got) == math.copysign(1, want)
+    return True
+
+
+def same_fields(got, want):
+    return set(got) == set(want) and all(
+        got[key][0] == want[key][0] and same_value(got[key][1], want[key][1]) for key in want)
+
+
 def tag_text(value):
     return value if isinstance(value, str) else str(value)
 
@@ -258,7 +273,7 @@ def run_line_case(case):
             output, got_fields, want_fields)
     for key, (kind, value) in want_fields.items():
         got_kind, got_value = got_fields[key]
-        if got_kind != kind or got_value != value or (
+        if got_kind != kind or not same_value(got_value, value) or (
             kind == "boolean" and got_value is not value
         ):
             return "output %r: field %r decodes to %s %r, expected %s %r" % (
@@ -378,7 +393,7 @@ def shard_pair(args):
 
 TAG_DEFAULT_VALUES = ["d", "d e", 49, 8.5, True]
 RECORD_TAG_VALUES = [None, "r", "r,s", 7, 0.25]
-FIELD_VALUES = [0, 1, -3, 10**20, 0.5, -2.25, 1e100, 1e-7, True, False, "s", "", 1.0, 0.0]
+FIELD_VALUES = [0, 1, -3, 10**20, 0.5, -2.25, 1e100, 1e-7, True, False, "s", "", 1.0, 0.0, -0.0]
 RESOLUTIONS = [None, 1, 10, 60]
 CREATED = [0.0, 0.5, 9.999, 10.0, 59.5, 60.0, 61.25, 1600000000.123456, 1759400000.75,
            4500000000.0]
@@ -458,7 +473,7 @@ def run_history(case):
                 _m, tags, fields, _t = parse_line(output)
             except ParseError as err:
                 return "record %d: output %r is not line protocol: %s" % (index, output, err)
-            if tags != want_tags or fields != want_fields:
+            if tags != want_tags or not same_fields(fields, want_fields):
                 return "record %d of %r: output %r decodes to tags %r fields %r, expected %r %r" % (
                     index, case["records"], output, tags, fields, want_tags, want_fields)
         else:
@@ -474,7 +489,7 @@ def run_history(case):
     return None
 
 
-HISTORY_PAYLOADS = [{"f": True}, {"f": 1.0}, {"f": False, "g": 0.0}, {"f": 1}, {"t": "r", "f": 1}, {"t": "s", "u": "w", "f": 2}, {"u": "w", "f": 1},
+HISTORY_PAYLOADS = [{"f": True}, {"f": 1.0}, {"f": False, "g": 0.0}, {"f": -0.0, "g": 0}, {"g": -0.0}, {"f": 1}, {"t": "r", "f": 1}, {"t": "s", "u": "w", "f": 2}, {"u": "w", "f": 1},
                     {"f": 1, "g": "x"}]
 
 
